@@ -12,7 +12,7 @@ def main():
     base = json.load(open("/root/.vp/BASELINE.json"))
     stable = set(base["stable_pass"])
     tmp = tempfile.mkdtemp(prefix="bvsuite_")
-    wt = os.path.join(tmp, "wt")
+    wt = os.path.join(tmp, "wt_" + os.path.basename(tmp))
     try:
         if commit == "WORKTREE":
             subprocess.check_call(["git", "-C", "/repo", "worktree", "add", "-q", "--detach", wt, "HEAD"])
